@@ -119,6 +119,14 @@ pub struct CConfig {
     pub cert: Cert,
     pub tls_host: TlsHost,
     pub tls12: bool,
+    /// the same connector service has completed (and cleanly shut down) a handshake for the good
+    /// name against the same server before the request under test
+    #[serde(default)]
+    pub prior_session: bool,
+    /// the TLS peer is the OpenSSL acceptor of actix-tls (resumes sessions whatever the name asked
+    /// for) instead of the hand-driven rustls server; both sides are polled in lock-step
+    #[serde(default)]
+    pub openssl_peer: bool,
     pub pipe_cap: usize,
     pub payload_len: usize,
     pub payload_seed: u64,
@@ -145,6 +153,8 @@ pub fn gen(rng: &mut Rng) -> CConfig {
         cert: rng.pick(&[Cert::Good, Cert::Good, Cert::OtherName, Cert::RogueCa, Cert::IpOnly]).clone(),
         tls_host: rng.pick(&[TlsHost::Good, TlsHost::Good, TlsHost::GoodWithPort, TlsHost::Other, TlsHost::Invalid, TlsHost::Ip]).clone(),
         tls12: rng.chance(1, 3),
+        prior_session: rng.chance(1, 3),
+        openssl_peer: rng.chance(1, 4),
         pipe_cap: *rng.pick(&[512, 4096, 1 << 20]),
         payload_len: rng.range(0, 9000) as usize,
         payload_seed: rng.next_u64(),
@@ -579,7 +589,84 @@ impl<T> Future for MapConn<T> {
     }
 }
 
-async fn run_tls(cfg: &CConfig, ch: &mut Chooser<Action>, ctx: &mut RunCtx) -> Option<Violation> {
+/// One complete, fault-free connection through `call` for the good name: handshake, a few bytes each
+/// way, orderly shutdown from both sides. Deterministic (no choices). Returns whether it worked.
+fn prior_session(call: &dyn Fn(Connection<String, Half>) -> ConnFut, scfg: Arc<rustls::ServerConfig>) -> bool {
+    let c2s = Pipe::new(1 << 20);
+    let s2c = Pipe::new(1 << 20);
+    let half = Half { rx: s2c.clone(), tx: c2s.clone(), shutdown: false };
+    let mut server = rustls::ServerConnection::new(scfg).unwrap();
+    let mut fut = call(Connection::new(GOOD_NAME.to_string(), half));
+    let w = std::task::Waker::noop();
+    let mut cx = Context::from_waker(&w);
+    let mut stream: Option<Pin<Box<dyn Rw>>> = None;
+    let mut phase = 0; // 0 handshake, 1 client wrote, 2 client shut down
+    let mut buf = [0u8; 1024];
+    for _ in 0..400 {
+        if stream.is_none() {
+            if let Poll::Ready(r) = fut.as_mut().poll(&mut cx) {
+                match r {
+                    Ok(s) => stream = Some(s),
+                    Err(_) => return false,
+                }
+            }
+        }
+        // client -> server
+        let data = c2s.borrow_mut().drain(usize::MAX);
+        let mut rd = &data[..];
+        while !rd.is_empty() {
+            if server.read_tls(&mut rd).is_err() || server.process_new_packets().is_err() {
+                return false;
+            }
+            while let Ok(k) = server.reader().read(&mut buf) {
+                if k == 0 {
+                    break;
+                }
+            }
+        }
+        // server -> client
+        let mut out = Vec::new();
+        while server.wants_write() {
+            if server.write_tls(&mut out).is_err() {
+                return false;
+            }
+        }
+        let moved = !data.is_empty() || !out.is_empty();
+        if !out.is_empty() {
+            s2c.borrow_mut().push(&out);
+        }
+        if let Some(st) = stream.as_mut() {
+            // let the client side consume whatever the server sent (session tickets, close_notify)
+            let mut rb_store = [0u8; 1024];
+            let mut rb = ReadBuf::new(&mut rb_store);
+            let _ = st.as_mut().poll_read(&mut cx, &mut rb);
+            match phase {
+                0 => {
+                    if let Poll::Ready(Ok(_)) = st.as_mut().poll_write(&mut cx, b"hello") {
+                        let _ = st.as_mut().poll_flush(&mut cx);
+                        phase = 1;
+                    }
+                }
+                1 if !moved => {
+                    if let Poll::Ready(_) = st.as_mut().poll_shutdown(&mut cx) {
+                        server.send_close_notify();
+                        phase = 2;
+                    }
+                }
+                2 if !moved => return true,
+                _ => {}
+            }
+        }
+    }
+    false
+}
+
+/// Lock-step variant: connector under test against the real OpenSSL acceptor of actix-tls over the
+/// in-memory duplex, one or two connections through the same connector service. No choices are
+/// drawn; what varies is the configuration (certificate, requested name, TLS version, history).
+fn run_tls_openssl_peer(cfg: &CConfig, ctx: &mut RunCtx) -> Option<Violation> {
+    use actix_tls::accept::openssl as acc;
+    use openssl::{pkey::PKey, ssl::{SslAcceptor, SslConnector, SslMethod}, x509::X509};
     let pk = pki();
     let (cert, key) = match cfg.cert {
         Cert::Good => (&pk.leaf_der, &pk.leaf_key_der),
@@ -587,7 +674,135 @@ async fn run_tls(cfg: &CConfig, ch: &mut Chooser<Action>, ctx: &mut RunCtx) -> O
         Cert::RogueCa => (&pk.rogue_der, &pk.rogue_key_der),
         Cert::IpOnly => (&pk.ip_der, &pk.ip_key_der),
     };
-    let mut server = rustls::ServerConnection::new(Arc::new(server_config(cert, key))).unwrap();
+    let mut sb = SslAcceptor::mozilla_intermediate_v5(SslMethod::tls()).unwrap();
+    sb.set_private_key(&PKey::private_key_from_der(key).unwrap()).unwrap();
+    sb.set_certificate(&X509::from_der(cert).unwrap()).unwrap();
+    let _ = sb.set_session_id_context(b"connsim");
+    let acceptor = crate::futures_now(<acc::Acceptor as ServiceFactory<Half>>::new_service(&acc::Acceptor::new(sb.build()), ())).expect("acceptor");
+    let mut cb = SslConnector::builder(SslMethod::tls()).unwrap();
+    cb.cert_store_mut().add_cert(X509::from_der(&pk.ca_der).unwrap()).unwrap();
+    if cfg.tls12 {
+        let _ = cb.set_max_proto_version(Some(openssl::ssl::SslVersion::TLS1_2));
+    }
+    let rustls_svc = conn_rustls::TlsConnector::service(crate::client_config(cfg.tls12));
+    let openssl_svc = conn_openssl::TlsConnector::service(cb.build());
+    let connect = |host: &str, half: Half| -> ConnFut {
+        let conn = Connection::new(host.to_string(), half);
+        if cfg.openssl {
+            let f = <conn_openssl::TlsConnectorService as Service<Connection<String, Half>>>::call(&openssl_svc, conn);
+            Box::pin(MapConn { f: Box::pin(f), conv: |c| { let (io, _) = c.into_parts(); Box::pin(io) as Pin<Box<dyn Rw>> } })
+        } else {
+            let f = <conn_rustls::TlsConnectorService as Service<Connection<String, Half>>>::call(&rustls_svc, conn);
+            Box::pin(MapConn { f: Box::pin(f), conv: |c| { let (io, _) = c.into_parts(); Box::pin(io) as Pin<Box<dyn Rw>> } })
+        }
+    };
+    // one connection, both ends polled in turn; returns whether the connector's handshake succeeded
+    let one = |host: &str| -> Option<bool> {
+        let c2s = Pipe::new(1 << 20);
+        let s2c = Pipe::new(1 << 20);
+        let mut cfut = connect(host, Half { rx: s2c.clone(), tx: c2s.clone(), shutdown: false });
+        let mut sfut = Box::pin(<acc::AcceptorService as Service<Half>>::call(&acceptor, Half { rx: c2s.clone(), tx: s2c.clone(), shutdown: false }));
+        let w = std::task::Waker::noop();
+        let mut cx = Context::from_waker(&w);
+        let mut cres: Option<Result<Pin<Box<dyn Rw>>, ()>> = None;
+        let mut sres: Option<Result<Pin<Box<acc::TlsStream<Half>>>, ()>> = None;
+        for _ in 0..200 {
+            if cres.is_none() {
+                if let Poll::Ready(r) = cfut.as_mut().poll(&mut cx) {
+                    cres = Some(r.map_err(|_| ()));
+                    if matches!(cres, Some(Err(()))) {
+                        // the connector gave up: its half is gone, the acceptor sees the end
+                        c2s.borrow_mut().close();
+                    }
+                }
+            }
+            if sres.is_none() {
+                if let Poll::Ready(r) = sfut.as_mut().poll(&mut cx) {
+                    sres = Some(r.map(Box::pin).map_err(|_| ()));
+                }
+            }
+            if cres.is_some() && sres.is_some() {
+                break;
+            }
+        }
+        let ok = matches!(cres, Some(Ok(_)));
+        // orderly end from both sides (a session is only resumable after a clean shutdown)
+        if let (Some(Ok(mut c)), Some(Ok(mut s))) = (cres, sres) {
+            let mut store = [0u8; 256];
+            for _ in 0..8 {
+                let _ = c.as_mut().poll_shutdown(&mut cx);
+                let _ = s.as_mut().poll_shutdown(&mut cx);
+                let mut rb = ReadBuf::new(&mut store);
+                let _ = c.as_mut().poll_read(&mut cx, &mut rb);
+                let mut rb = ReadBuf::new(&mut store);
+                let _ = s.as_mut().poll_read(&mut cx, &mut rb);
+            }
+        }
+        cres_is_some_guard(ok)
+    };
+    fn cres_is_some_guard(ok: bool) -> Option<bool> {
+        Some(ok)
+    }
+    let host: String = match cfg.tls_host {
+        TlsHost::Good => GOOD_NAME.into(),
+        TlsHost::GoodWithPort => format!("{GOOD_NAME}:8443"),
+        TlsHost::Other => "other.test".into(),
+        TlsHost::Invalid => "not a valid name!".into(),
+        TlsHost::Ip => "127.0.0.1".into(),
+    };
+    let valid = matches!(
+        (&cfg.cert, &cfg.tls_host),
+        (Cert::Good, TlsHost::Good | TlsHost::GoodWithPort) | (Cert::OtherName, TlsHost::Other) | (Cert::IpOnly, TlsHost::Ip)
+    );
+    if cfg.prior_session && cfg.cert == Cert::Good {
+        if one(GOOD_NAME) != Some(true) {
+            return Some(Violation::new("valid-cert-rejected", format!("the preliminary handshake for {GOOD_NAME} against a valid certificate failed")));
+        }
+        ctx.bump("probe.prior_session_against_openssl_peer");
+    }
+    ev!(ctx, "tls case (OpenSSL acceptor as peer) connector={} cert={:?} host={:?} prior={} -> expect {}", if cfg.openssl { "openssl" } else { "rustls" }, cfg.cert, cfg.tls_host, cfg.prior_session, if valid { "ok" } else { "error" });
+    // the rustls connector refuses syntactically invalid names before any I/O (panics are caught by the runner)
+    let got = one(&host)?;
+    ctx.state(hash_u64s(&[cfg.cert.clone() as u64, cfg.tls_host.clone() as u64, cfg.openssl as u64, cfg.prior_session as u64, 77]));
+    ctx.nontrivial = true;
+    match (valid, got) {
+        (true, true) => {
+            ctx.bump("probe.tls_connected");
+            None
+        }
+        (false, false) => {
+            ctx.bump("probe.tls_rejected");
+            None
+        }
+        (false, true) => Some(
+            Violation::new(
+                "verified-wrong-name",
+                format!(
+                    "the {} connector accepted a certificate ({:?}) that is not valid for the requested host {host:?}{}",
+                    if cfg.openssl { "OpenSSL" } else { "rustls" },
+                    cfg.cert,
+                    if cfg.prior_session { " after an earlier session for the good name on the same service" } else { "" }
+                ),
+            )
+            .fact("connector", if cfg.openssl { "openssl" } else { "rustls" }),
+        ),
+        (true, false) => Some(Violation::new("valid-cert-rejected", format!("the connector rejected a certificate that is valid for {host:?}")).fact("connector", if cfg.openssl { "openssl" } else { "rustls" })),
+    }
+}
+
+async fn run_tls(cfg: &CConfig, ch: &mut Chooser<Action>, ctx: &mut RunCtx) -> Option<Violation> {
+    if cfg.openssl_peer {
+        return run_tls_openssl_peer(cfg, ctx);
+    }
+    let pk = pki();
+    let (cert, key) = match cfg.cert {
+        Cert::Good => (&pk.leaf_der, &pk.leaf_key_der),
+        Cert::OtherName => (&pk.other_der, &pk.other_key_der),
+        Cert::RogueCa => (&pk.rogue_der, &pk.rogue_key_der),
+        Cert::IpOnly => (&pk.ip_der, &pk.ip_key_der),
+    };
+    let scfg = Arc::new(server_config(cert, key));
+    let mut server = rustls::ServerConnection::new(scfg.clone()).unwrap();
     server.set_buffer_limit(None);
     let host: String = match cfg.tls_host {
         TlsHost::Good => GOOD_NAME.into(),
@@ -609,18 +824,24 @@ async fn run_tls(cfg: &CConfig, ch: &mut Chooser<Action>, ctx: &mut RunCtx) -> O
     // the connector's half reads what the server sent (s2c) and writes towards the server (c2s)
     let half = Half { rx: s2c.clone(), tx: c2s.clone(), shutdown: false };
     let conn = Connection::new(host.clone(), half);
-    let mut fut: Option<ConnFut> = Some(if cfg.openssl {
+    let call: Box<dyn Fn(Connection<String, Half>) -> ConnFut> = if cfg.openssl {
         use openssl::{ssl::{SslConnector, SslMethod}, x509::X509};
         let mut b = SslConnector::builder(SslMethod::tls()).unwrap();
         b.cert_store_mut().add_cert(X509::from_der(&pk.ca_der).unwrap()).unwrap();
+        if cfg.tls12 {
+            // TLS 1.2 sessions can be resumed from a cache without a new certificate exchange
+            let _ = b.set_max_proto_version(Some(openssl::ssl::SslVersion::TLS1_2));
+        }
         let svc = if cfg.via_factory {
             let fac = conn_openssl::TlsConnector::new(b.build());
             crate::futures_now(<conn_openssl::TlsConnector as ServiceFactory<Connection<String, Half>>>::new_service(&fac, ())).expect("factory")
         } else {
             conn_openssl::TlsConnector::service(b.build())
         };
-        let f = <conn_openssl::TlsConnectorService as Service<Connection<String, Half>>>::call(&svc, conn);
-        Box::pin(MapConn { f: Box::pin(f), conv: |c| { let (io, _) = c.into_parts(); Box::pin(io) as Pin<Box<dyn Rw>> } })
+        Box::new(move |conn| {
+            let f = <conn_openssl::TlsConnectorService as Service<Connection<String, Half>>>::call(&svc, conn);
+            Box::pin(MapConn { f: Box::pin(f), conv: |c| { let (io, _) = c.into_parts(); Box::pin(io) as Pin<Box<dyn Rw>> } }) as ConnFut
+        })
     } else {
         let svc = if cfg.via_factory {
             let fac = conn_rustls::TlsConnector::new(crate::client_config(cfg.tls12));
@@ -628,9 +849,20 @@ async fn run_tls(cfg: &CConfig, ch: &mut Chooser<Action>, ctx: &mut RunCtx) -> O
         } else {
             conn_rustls::TlsConnector::service(crate::client_config(cfg.tls12))
         };
-        let f = <conn_rustls::TlsConnectorService as Service<Connection<String, Half>>>::call(&svc, conn);
-        Box::pin(MapConn { f: Box::pin(f), conv: |c| { let (io, _) = c.into_parts(); Box::pin(io) as Pin<Box<dyn Rw>> } })
-    });
+        Box::new(move |conn| {
+            let f = <conn_rustls::TlsConnectorService as Service<Connection<String, Half>>>::call(&svc, conn);
+            Box::pin(MapConn { f: Box::pin(f), conv: |c| { let (io, _) = c.into_parts(); Box::pin(io) as Pin<Box<dyn Rw>> } }) as ConnFut
+        })
+    };
+    if cfg.prior_session && cfg.cert == Cert::Good {
+        if prior_session(&call, scfg.clone()) {
+            ctx.bump("probe.prior_session_on_same_service");
+            ev!(ctx, "an earlier session for {GOOD_NAME} was completed and shut down on this service");
+        } else {
+            return Some(Violation::new("valid-cert-rejected", format!("the preliminary handshake for {GOOD_NAME} against a valid certificate failed")));
+        }
+    }
+    let mut fut: Option<ConnFut> = Some(call(conn));
     ev!(ctx, "tls case connector={} cert={:?} host={:?} -> expect {}", if cfg.openssl { "openssl" } else { "rustls" }, cfg.cert, cfg.tls_host, if valid { "ok" } else { "error" });
 
     let mut task = TaskWake::new();
@@ -833,7 +1065,7 @@ fn crate_payload(seed: u64, len: usize, salt: u64) -> Vec<u8> {
 
 pub fn describe() -> Describe {
     Describe {
-        rule: "TCP part: address lists of length 0..4 whose entries are independently a live loopback listener or a reserved closed port (IPv4 and IPv6), host strings with/without port, IP literals, non-numeric port text, pre-set One/Multi addresses or with_addr, set_port (equal to or different from the port in the host string: the host's port wins), the numeric order of the slots' ports follows a seeded rank (so that the dial order of a list is never accidentally its sorted order), optional local bind address, default resolver (localhost) or scripted resolver returning list / empty / error after 0..2 Pending polls, entered through Connector, TcpConnector alone or Resolver alone, each obtained by `.service()` or through its ServiceFactory (also the TLS connectors); when all addresses fail the error is that of the last one in dial order; outcome, dialled address, accept counters of every listener and the resolver call log are compared with a precedence model. TLS part: rustls 0.23 and OpenSSL connector services over the in-memory duplex against a hand-driven rustls server holding a certificate that covers / does not cover the requested host, is issued by an untrusted CA or lists only an IP, for host strings incl. host:port, another name, an invalid name and an IP literal; seeded delivery chunking; payload round trip after success. non-trivial = every run; distinct = distinct event-trace hash".into(),
+        rule: "TCP part: address lists of length 0..4 whose entries are independently a live loopback listener or a reserved closed port (IPv4 and IPv6), host strings with/without port, IP literals, non-numeric port text, pre-set One/Multi addresses or with_addr, set_port (equal to or different from the port in the host string: the host's port wins), the numeric order of the slots' ports follows a seeded rank (so that the dial order of a list is never accidentally its sorted order), optional local bind address, default resolver (localhost) or scripted resolver returning list / empty / error after 0..2 Pending polls, entered through Connector, TcpConnector alone or Resolver alone, each obtained by `.service()` or through its ServiceFactory (also the TLS connectors); when all addresses fail the error is that of the last one in dial order; outcome, dialled address, accept counters of every listener and the resolver call log are compared with a precedence model. TLS part: rustls 0.23 and OpenSSL connector services (optionally after an earlier, cleanly closed session for the good name on the same service and server: session caches must not carry a verification over to another name) over the in-memory duplex against a hand-driven rustls server (in a quarter of the TLS runs against the OpenSSL acceptor of actix-tls, both ends polled in lock-step: that peer resumes sessions whatever the name asked for) holding a certificate that covers / does not cover the requested host, is issued by an untrusted CA or lists only an IP, for host strings incl. host:port, another name, an invalid name and an IP literal; seeded delivery chunking; payload round trip after success. non-trivial = every run; distinct = distinct event-trace hash".into(),
         real: vec!["actix_tls::connect::{Connector, ConnectorService, Resolver, ResolverService, TcpConnector, TcpConnectorService, ConnectInfo, Connection, Host}", "actix_tls::connect::{rustls_0_23, openssl}::TlsConnectorService", "kernel loopback TCP, tokio I/O driver", "rustls 0.23 / OpenSSL certificate verification"],
         stub: vec!["DNS: scripted Resolve implementation (default resolver only for localhost)", "TLS server: hand-driven rustls::ServerConnection", "wire for the TLS part: in-memory duplex"],
         assumptions: vec!["connect timing (slow SYN, half-open) cannot be simulated on kernel loopback and is not part of C19", "rustls 0.20-0.22 and native-tls connectors are not exercised"],
@@ -841,5 +1073,5 @@ pub fn describe() -> Describe {
 }
 
 pub fn required_probes() -> Vec<&'static str> {
-    vec!["probe.connected", "probe.fallback_to_later_address", "probe.no_records", "probe.resolver_error", "probe.unresolved", "probe.all_refused", "probe.resolver_consulted", "probe.tls_connected", "probe.tls_rejected", "probe.tls_payload_roundtrip", "probe.host_port_beats_set_port", "probe.unsorted_list_with_two_live", "probe.service_from_factory", "probe.all_fail_with_different_errors"]
+    vec!["probe.connected", "probe.fallback_to_later_address", "probe.no_records", "probe.resolver_error", "probe.unresolved", "probe.all_refused", "probe.resolver_consulted", "probe.tls_connected", "probe.tls_rejected", "probe.tls_payload_roundtrip", "probe.host_port_beats_set_port", "probe.unsorted_list_with_two_live", "probe.service_from_factory", "probe.all_fail_with_different_errors", "probe.prior_session_on_same_service", "probe.prior_session_against_openssl_peer"]
 }
